@@ -4,7 +4,8 @@
    Spec:  coq/Spec/MapStreamSpec.v. *)
 From Coq Require Import ZArith List Lia.
 From EV Require Import Res Arr MapStream MapStreamSpec MapStreamBase MapStreamFixed MapStreamGen MapStreamRefuted MapHelpers
-  MapIndexedBase MapIndexedKernel MapIndexedDriver MapIndexedHelper MapStreamOrig MapStreamSpan.
+  MapIndexedBase MapIndexedKernel MapIndexedDriver MapIndexedHelper MapStreamOrig MapStreamSpan
+  MapHistorySpec MapHistory MapHistoryProofs.
 Import ListNotations.
 Open Scope Z_scope.
 
@@ -235,3 +236,36 @@ Proof.
   exists [0;1;3], [97;98;98], [1;0], (-1), 2, 4. split; [reflexivity|]. split; vm_compute; reflexivity.
 Qed.
 Print Assumptions indexed_stream_unordered_map_refuted.
+
+(* ---- histories of calls on the same fields: FULL ------------------------------------------------
+   One map field, one numeric source and one indexed-string source are used by ANY sequence of calls
+   (streamed, indexed streamed, the three helpers, and the streamed mapping of the map column through
+   itself — source aliases map), each call meeting its own single-call precondition: every call of
+   the history yields the single-call specification computed from the ORIGINAL map and sources (so the
+   order and number of earlier calls is unobservable), and the map and the sources are unchanged at the
+   end. The differential run replays such histories on memory-backed fields (whose chunk reads are
+   views of the field's own array) and on HDF5-backed fields, and compares the fields afterwards. *)
+Theorem history_correct :
+  forall (fuel:nat) (inv:Z) (m num idx val:list Z) (steps:list hstep),
+    Forall (step_pre m num idx val inv) steps -> (fuel >= 2 * length m + 2)%nat ->
+    run_history fuel Fixed inv m num idx val steps = Ok (history_spec m num idx val inv steps).
+Proof. exact history_correct_top. Qed.
+Print Assumptions history_correct.
+
+Theorem history_last_call_as_if_alone :
+  forall (fuel:nat) (inv:Z) (m num idx val:list Z) (steps:list hstep) (st:hstep) (s1 s2:hstate),
+    Forall (step_pre m num idx val inv) (steps ++ [st]) -> (fuel >= 2 * length m + 2)%nat ->
+    run_history fuel Fixed inv m num idx val (steps ++ [st]) = Ok s1 ->
+    run_history fuel Fixed inv m num idx val [st] = Ok s2 ->
+    last (h_out s1) (ONum []) = last (h_out s2) (ONum []) /\
+    h_map s1 = m /\ h_num s1 = num /\ h_idx s1 = idx /\ h_val s1 = val.
+Proof. exact history_last_call_alone. Qed.
+Print Assumptions history_last_call_as_if_alone.
+
+Example history_correct_hyps :   (* 'a','bb','ccc'; numeric then indexed then helper through one S32-marked map *)
+  run_history 20 Fixed INVALID_INDEX_32 [0; INVALID_INDEX_32; 2; 1] [10;20;30] [0;1;3;6] [97;98;98;99;99;99]
+    [HStream 2; HIStream 2 2; HMapValid; HSelf 3]
+  = Ok (mk_hstate [0; INVALID_INDEX_32; 2; 1] [10;20;30] [0;1;3;6] [97;98;98;99;99;99]
+         [ONum [10;0;30;20]; OIdx [0;1;1;4;6] [97;99;99;99;98;98]; ONum [10;0;30;20];
+          ONum [0;0;2;INVALID_INDEX_32]]).
+Proof. vm_compute. reflexivity. Qed.
